@@ -116,12 +116,17 @@ let () =
            let tbl = List.init n (fun k -> List.assoc k c.tbl) in
            let ors = List.rev c.ors in
            let streams = List.rev c.streams in
+           let maxlen = List.fold_left (fun a st ->
+               let srcs = st.s_raw :: List.filter_map (fun x -> x) st.s_conv in
+               List.fold_left (fun a src -> max a (List.fold_left (fun n (_, x) -> n + List.length x) 0 src)) a srcs) 0 streams in
+           let maxprog = List.fold_left (fun a r -> max a (List.length r.r_prog.insts)) 0 tbl in
+           let fuel = nat_of_int ((maxlen + 1) * (maxprog + 1) * 2) in
            let ids f = String.concat "," (List.filter_map (fun x -> x) (List.mapi (fun i st -> if f st then Some (string_of_int i) else None) streams)) in
            if c.bad <> "" then Printf.fprintf oc "%s %s\n" c.id c.bad
-           else if List.exists (fun st -> List.exists (fun cs -> any_bad true tbl c.conv cs st) ors) streams then Printf.fprintf oc "%s BAD\n" c.id
+           else if List.exists (fun st -> List.exists (fun cs -> any_bad fuel true tbl c.conv cs st) ors) streams then Printf.fprintf oc "%s BAD\n" c.id
            else begin
-             let a = ids (stream_selected true tbl c.conv ors) in
-             let b = ids (stream_spec tbl c.conv ors) in
+             let a = ids (stream_selected fuel true tbl c.conv ors) in
+             let b = ids (stream_spec fuel tbl c.conv ors) in
              if a = b then Printf.fprintf oc "%s OK %s\n" c.id a
              else Printf.fprintf oc "%s MODELSPLIT algorithm=%s spec=%s\n" c.id a b
            end;
